@@ -4,7 +4,7 @@
     projection-stop threshold are parameters (instantiated from the generated
     tables at the end), so that the theorems about the parser hold for every
     table with the documented order. *)
-From JP Require Import Base Value Lexer Gen.Tables.
+From JP Require Import Base Value Lexer Gen.Tables Spec.TableSpec.
 
 Record pst := mkPst { pq : list (Z * token); poff : Z }.
 
@@ -388,7 +388,8 @@ Definition parse (s : str) : res ast :=
   let* toks := tokenize s in
   parse_tokens lbp gen_projection_stop false (parse_fuel toks) toks.
 
-(** The reference parser (decision procedure for the grammar; see Spec/Grammar.v). *)
+(** The reference parser (decision procedure for the grammar; see Spec/Grammar.v),
+    over the documented table of Spec/TableSpec.v. *)
 Definition ref_parse (s : str) : res ast :=
   let* toks := tokenize s in
-  parse_tokens lbp gen_projection_stop true (parse_fuel toks) toks.
+  parse_tokens (fun t => spec_lbp (kind_of t)) spec_stop true (parse_fuel toks) toks.
